@@ -202,9 +202,16 @@ pub fn gen_sql(rng: &mut Rng) -> (String, bool) {
                     else if rng.chance(1, 4) { if rng.chance(1, 2) { (format!("SELECT DISTINCT {k} AS k FROM {}{where_} GROUP BY {k}, {k2}", s.from), false) } else { (format!("SELECT DISTINCT {k} AS k, count(*) AS n FROM {}{where_} GROUP BY {k}, {k2}", s.from), false) } }
                     else if rng.chance(1, 3) { (format!("SELECT {k} AS k, {k2} AS k2 FROM {}{where_} GROUP BY {k}, {k2}", s.from), false) }
                     else { (format!("SELECT {k} AS k, {k2} AS k2, {} FROM {}{where_} GROUP BY {k}, {k2}", aggs.join(", "), s.from), false) } }
+                // the grouping key after, or between, the aggregates: the output keeps the order of the select list
+                (Some(k), 1) if rng.chance(1, 3) => { let mut items = aggs.clone(); let pos = rng.below(items.len() as u64 + 1) as usize; items.insert(pos.max(1), format!("{k} AS k")); (format!("SELECT {} FROM {}{where_} GROUP BY {k}", items.join(", "), s.from), false) }
                 (Some(k), 0) | (Some(k), 1) => { let having = if rng.chance(1, 4) { " HAVING count(*) > 1" } else { "" }; (format!("SELECT {k} AS k, {} FROM {}{where_} GROUP BY {k}{having}", aggs.join(", "), s.from), false) }
                 (Some(k), 3) if rng.chance(1, 3) => (format!("SELECT {k} AS k FROM {}{where_} GROUP BY {k}", s.from), false),
                 (Some(k), 2) if !k.contains('.') => (format!("SELECT {k} + 1 AS k, {} FROM {}{where_} GROUP BY {k} + 1", aggs.join(", "), s.from), false),
+                // no grouping: literal and constant items before, between and after the aggregates
+                _ if rng.chance(1, 2) => { let mut items = aggs.clone();
+                    let pos = rng.below(items.len() as u64 + 1) as usize; items.insert(pos, "'all' AS l0".to_string());
+                    if rng.chance(1, 2) { let pos = rng.below(items.len() as u64 + 1) as usize; items.insert(pos, "1 + 1 AS l1".to_string()); }
+                    (format!("SELECT {} FROM {}{where_}", items.join(", "), s.from), false) }
                 _ => (format!("SELECT {} FROM {}{where_}", aggs.join(", "), s.from), false),
             }
         }
